@@ -14,7 +14,7 @@ MUTATORS = {"append", "extend", "insert", "pop", "remove", "clear", "sort", "rev
 
 class Taint:
     def __init__(self, ctx, is_source, copies=COPY_BUILTINS, through_subscript=True, through_iter=True,
-                 sanitizers=()):
+                 sanitizers=(), string_mode=False):
         """is_source(expr, func) -> bool marks expressions that are tainted by themselves"""
         self.ctx = ctx
         self.ix = ctx.ix
@@ -25,6 +25,7 @@ class Taint:
         self.sanitizers = set(sanitizers)
         self.through_subscript = through_subscript
         self.through_iter = through_iter
+        self.string_mode = string_mode  # value semantics: results computed from a tainted string are tainted
         self.vars = set()    # (funckey, name)
         self.fields = set()  # (classkey, attr)
         self.rets = set()    # funckey
@@ -69,6 +70,10 @@ class Taint:
         if isinstance(e, ast.Name):
             g = self._owner(e.id, f)
             if g is not None:
+                if self.sanitizers and g is f:
+                    cut = self._sanitized_from(f, e.id)
+                    if cut is not None and getattr(e, "lineno", 0) > cut:
+                        return False
                 return (g.key, e.id) in self.vars
             return (f.module.toplevel.key, e.id) in self.vars or self._imported_var_tainted(e.id, f)
         if isinstance(e, ast.Attribute):
@@ -89,6 +94,10 @@ class Taint:
             return any(self.tainted(v, f) for v in e.values)
         if isinstance(e, ast.NamedExpr):
             return self.tainted(e.value, f)
+        if self.string_mode and isinstance(e, ast.BinOp):
+            return self.tainted(e.left, f) or self.tainted(e.right, f)
+        if self.string_mode and isinstance(e, ast.JoinedStr):
+            return any(self.tainted(v.value, f) for v in e.values if isinstance(v, ast.FormattedValue))
         if isinstance(e, ast.Starred):
             return self.tainted(e.value, f)
         if isinstance(e, ast.Call):
@@ -96,6 +105,13 @@ class Taint:
             name = fn.id if isinstance(fn, ast.Name) else fn.attr if isinstance(fn, ast.Attribute) else None
             if name in self.sanitizers:
                 return False
+            if self.string_mode:
+                s = self._site_index.get(id(e))
+                if s is not None and s.callees and not all(c.name == "wrapper" for c in s.callees):
+                    return any(c.key in self.rets for c in s.callees)
+                if isinstance(fn, ast.Attribute) and self.tainted(fn.value, f) and fn.attr not in ("search", "match", "fullmatch", "startswith", "endswith", "isdigit", "isdecimal", "count", "find", "index"):
+                    return True
+                return any(self.tainted(a, f) for a in e.args) and name not in ("len", "isinstance", "bool", "int", "float", "type")
             if isinstance(fn, ast.Name) and fn.id in self.copies:
                 return False
             if isinstance(fn, ast.Attribute) and fn.attr in ("copy", "keys", "lower", "upper", "strip", "split", "join",
@@ -111,6 +127,23 @@ class Taint:
                         return True
             return False
         return False
+
+    def _sanitized_from(self, f, name):
+        """line of a top-level statement `name = <sanitizer>(name)` of f: later reads of name are clean
+        (one bit of flow sensitivity, enough for `s = self._translate_numerals(s)` at the head of a function)"""
+        cache = getattr(f, "_sa_sanit", None)
+        if cache is None:
+            cache = {}
+            body = f.node.body if isinstance(f.node.body, list) else []
+            for s in body:
+                if isinstance(s, ast.Assign) and len(s.targets) == 1 and isinstance(s.targets[0], ast.Name) \
+                        and isinstance(s.value, ast.Call):
+                    fn = s.value.func
+                    nm = fn.id if isinstance(fn, ast.Name) else fn.attr if isinstance(fn, ast.Attribute) else None
+                    if nm in self.sanitizers and any(isinstance(a, ast.Name) and a.id == s.targets[0].id for a in s.value.args):
+                        cache.setdefault(s.targets[0].id, s.end_lineno or s.lineno)
+            f._sa_sanit = cache
+        return cache.get(name)
 
     def _imported_var_tainted(self, name, f):
         ent = self.ix.lookup_module_attr(f.module, name)
